@@ -92,7 +92,9 @@ type Server struct {
 
 func (s Server) getRequestContext() *app.RequestContext {
 	if disabaleRequestContextPool {
-		return &app.RequestContext{}
+		// (the zero value is not a usable context: its handler index starts at 0 instead
+		// of -1, so the first handler of the chain would be skipped)
+		return app.NewContext(0)
 	}
 	return s.Core.GetCtxPool().Get().(*app.RequestContext)
 }
